@@ -21,6 +21,7 @@ Require Import PV.Base.Prelude PV.Base.F64 PV.Model.Conc PV.Model.HistConc PV.Mo
 Require Import PV.Proofs.HistConcLemmas PV.Proofs.HistConcInv PV.Proofs.HistConcProof PV.Proofs.HistConcOwn.
 Require Import PV.Proofs.HistExecSound PV.Proofs.HistExecInv PV.Proofs.HistConcThms.
 Require Import PV.Proofs.HistValues PV.Proofs.HistLog PV.Proofs.HistReads PV.Proofs.HistWait PV.Proofs.HistMain PV.Proofs.HistC03.
+Require Import PV.Spec.SpecC02 PV.Spec.SpecC03 PV.Proofs.HistSpec PV.Proofs.HistSpecC03.
 Open Scope Z_scope.
 
 (* ---------------------------------------------------------------- snapshots grow *)
@@ -136,6 +137,20 @@ Example c03_third_collect :
   exists s, reach_flips 0 od_sc 3 s /\ map snd (snaps s) = [(2, 12, []); (2, 12, []); (1, 5, [])].
 Proof. exact three_flips_reachable. Qed.
 
+
+(* ---------------------------------------------------------------- the validator implies the spec written from the text *)
+(* For ALL traces: a trace accepted by the executable model (the [chk] of tools/p_C03.py), inside the spec's domain
+   ([in_domain]: values +-2^k, pairwise distinct exponents k < 53, bounds non-decreasing) and all of whose calls have
+   returned, satisfies Spec/SpecC03.spec_c03 (the [chk_spec] of tools/p_C03.py) = spec_hist (snapshots describe one set,
+   grow, batches atomic, per-thread closure, the quiescent snapshot describes exactly everything) && the typed quiescent
+   reads (get_sample_count = number of observations, get_sample_sum = their sum) && "every call returned".
+   The validator accepts every prefix of an execution, so "no call is pending at the end of the trace" cannot follow from
+   validation: it is the executable side condition [all_returned] (the spec's own pending list is empty); that calls
+   terminate is runtime behaviour (see LIVENESS above). *)
+Theorem c03_spec_of_validated bounds es x :
+  xrun bounds xinit es = Some x -> in_domain bounds es = true -> all_returned es = true -> spec_c03 bounds es = true.
+Proof. exact (spec_c03_of_validated bounds es x). Qed.
+
 (* ---------------------------------------------------------------- non-vacuity: a trace of the real histogram *)
 (* bound [4]; thread 0 flushes the batch [1; 2; 8] then observes 16; threads 1 and 2 collect (2 + 1 collections), thread 2
    then calls get_sample_count and get_sample_sum.  Thread 1 flips while the batch is between claim and publish and
@@ -170,6 +185,12 @@ Example c03_ex_accepted :
               [(2%nat, 27, true); (2%nat, 4, false)], [(0, 1); (0, 2)]%nat, [[1; 2; 8]; [16]]).
 Proof. vm_compute. reflexivity. Qed.
 
+Example c03_ex_in_domain :
+  in_domain c03_ex_bounds c03_ex_trace = true /\ all_returned c03_ex_trace = true /\ spec_c03 c03_ex_bounds c03_ex_trace = true.
+Proof. vm_compute. auto. Qed.
+
+Check c03_spec_of_validated : forall bounds es x,
+  xrun bounds xinit es = Some x -> in_domain bounds es = true -> all_returned es = true -> spec_c03 bounds es = true.
 Check c03_snapshots_grow : forall bounds es x c1 c2,
   xrun bounds xinit es = Some x -> In c1 (cuts x) -> In c2 (cuts x) -> (cut_l1 c1 <= cut_l0 c2)%nat ->
   (cut_k c1 <= cut_k c2)%nat /\ firstn (cut_k c1) (recs (base x)) = firstn (cut_k c1) (firstn (cut_k c2) (recs (base x))).
@@ -201,4 +222,6 @@ Print Assumptions c03_wait_exact.
 Print Assumptions c03_wait_exit_stable.
 Print Assumptions c03_inv_after_any_flips.
 Print Assumptions c03_third_collect.
+Print Assumptions c03_spec_of_validated.
+Print Assumptions c03_ex_in_domain.
 Print Assumptions c03_ex_accepted.
